@@ -11,6 +11,7 @@ import itertools
 import os
 import re
 import tarfile
+import types
 import warnings
 
 from testtools import matchers as M
@@ -96,6 +97,11 @@ class Scratch:
         with open(self.file, "w") as f:
             f.write("x")
         os.chmod(self.file, 0o644)
+        # the same permission bits plus the sticky bit: '1644', which is not '0644'
+        self.sticky = os.path.join(root, "sticky")
+        with open(self.sticky, "w") as f:
+            f.write("x")
+        os.chmod(self.sticky, 0o1644)
         self.dir = os.path.join(root, "dir")
         self.emptydir = os.path.join(root, "empty")
         os.makedirs(self.emptydir)
@@ -144,7 +150,7 @@ def domains(scratch=None):
         STRLIST: [[], ["a", "b"], ["a"]],
     }
     if scratch is not None:
-        d[PATH] = [scratch.missing, scratch.file, scratch.dir, scratch.emptydir, scratch.tar, scratch.link, scratch.dotdot]
+        d[PATH] = [scratch.missing, scratch.file, scratch.dir, scratch.emptydir, scratch.tar, scratch.link, scratch.dotdot, scratch.sticky]
     return d
 
 
@@ -199,6 +205,7 @@ def leaves(scratch=None):
         add(INT, "GreaterThan(%d)" % k, lambda k=k: M.GreaterThan(k), lambda v, k=k: v > k)
     add(INT, "Equals(2)", lambda: M.Equals(2), lambda v: v == 2)
     add(INT, "LessThan(2)", lambda: M.LessThan(2), lambda v: v < 2)
+    add(INT, "IsInstance()", lambda: M.IsInstance(), lambda v: False)  # (what assertIsInstance(x, ()) builds: no type at all)
     add(INT, "IsInstance(int)", lambda: M.IsInstance(int), lambda v: isinstance(v, int))
     add(INT, "IsInstance(str, bytes)", lambda: M.IsInstance(str, bytes), lambda v: isinstance(v, (str, bytes)))
     add(INT, "IsInstance(str | bytes)", lambda: M.IsInstance(str | bytes), lambda v: isinstance(v, (str, bytes)))
@@ -224,6 +231,7 @@ def leaves(scratch=None):
     add(BYTES, "EndsWith(b'\\xff')", lambda: M.EndsWith(b"\xff"), lambda v: v.endswith(b"\xff"))
     add(BYTES, "Contains(b'a')", lambda: M.Contains(b"a"), lambda v: b"a" in v)
     add(BYTES, "HasLength(2)", lambda: M.HasLength(2), lambda v: len(v) == 2)
+    add(BYTES, "MatchesRegex(re.compile(b'a.', re.S))", lambda: M.MatchesRegex(re.compile(b"a.", re.S)), lambda v: re.match(b"a.", v, re.S) is not None)
     add(BYTES, "MatchesRegex(b'a.')", lambda: M.MatchesRegex(b"a.", re.S), lambda v: re.match(b"a.", v, re.S) is not None)
     # lists
     add(LIST, "Equals([1, 2])", lambda: M.Equals([1, 2]), lambda v: v == [1, 2])
@@ -244,6 +252,8 @@ def leaves(scratch=None):
     # dicts
     add(DICT, "KeysEqual('x')", lambda: M.KeysEqual("x"), lambda v: set(v) == {"x"})
     add(DICT, "KeysEqual({'x':0,'y':0})", lambda: M.KeysEqual({"x": 0, "y": 0}), lambda v: set(v) == {"x", "y"})
+    # (a single argument that is a mapping, though not a dict: its keys are the expected ones)
+    add(DICT, "KeysEqual(mappingproxy({'x':0,'y':0}))", lambda: M.KeysEqual(types.MappingProxyType({"x": 0, "y": 0})), lambda v: set(v) == {"x", "y"})
     add(DICT, "KeysEqual('x','x')", lambda: M.KeysEqual("x", "x"), lambda v: set(v) == {"x"})
     add(DICT, "KeysEqual({fs2:0,fs1:0})", lambda: M.KeysEqual({frozenset({2}): 0, frozenset({1}): 0}), lambda v: set(v) == {frozenset({1}), frozenset({2})})
     # (expected keys of different types: they do not order, the matcher still has a str())
